@@ -14,6 +14,7 @@ def run(ctx):
     ctx.run(W.flt1_lossless_float_codec_compares_bits)
     ctx.run(M.lit1_null_patterns)
     ctx.run(B.pan7_empty_batch_is_applicable)
+    ctx.run(B.tbl22_client_column_push_uses_row_position)
     return ctx.finish(
         'Static rules: the ingestion message codec and the response codec map every variant to '
         'union members the reader maps back to the same variant; each narrow integer layout is '
